@@ -11,6 +11,7 @@ package app
 //@   ensures state != nil && state.gc != nil ==> ctxOK(result)       // A-CTX: contexts built by Action have their stores aimed at `state`, the fee option set and the currencies registered under their own names (established at genesis)
 
 //@ func (*App).txDeliverer$1
+//@   safety C18
 //@   requires app != nil && app.Context.deliver != nil && wfState(app.Context.deliver) && !sessOpen(app.Context.deliver) && sgas(app.Context.deliver) >= 0 && app.Context.actionRouter != nil && app.Context.stateDB != nil
 //@   ensures !sessOpen(app.Context.deliver)                                                                                          // C06.session-closed
 //@   ensures result.Code != 0 ==> bHas(app.Context.deliver) == old(bHas(app.Context.deliver)) && bVal(app.Context.deliver) == old(bVal(app.Context.deliver))   // C06.failed-noop
@@ -20,5 +21,6 @@ package app
 //@   modifies nothing
 
 //@ func (*App).txChecker$1
+//@   safety C18
 //@   requires app != nil && app.Context.check != nil && wfState(app.Context.check) && sgas(app.Context.check) >= 0 && app.Context.actionRouter != nil
 //@   property C04 C06
